@@ -11,7 +11,7 @@ for dir in seeded/*${1:-}*/; do
   if ! git -C "$W" apply "$(pwd)/${dir}patch.diff"; then echo "$name: PATCH DOES NOT APPLY"; git -C /repo worktree remove --force "$W"; continue; fi
   res=""
   for id in $checks; do
-    o=$(VERIF_REPO="$W" VERIF_NO_EVIDENCE=1 VERIF_SHRINK_S="${VERIF_SHRINK_S:-5}" ./check "$id" --tier quick 2>&1); rc=$?
+    o=$(VERIF_REPO="$W" VERIF_NO_EVIDENCE=1 VERIF_SHRINK_S="${VERIF_SHRINK_S:-5}" VERIF_FAILFAST=1 ./check "$id" --tier quick 2>&1); rc=$?
     line=$(echo "$o" | grep -m1 'detail:' | cut -c1-300 | sed 's/\\/\\\\/g; s/"/\\"/g')
     echo "$name $id rc=$rc $(echo "$line" | cut -c1-160)"
     res="$res{\"check\": \"$id\", \"tier\": \"quick\", \"rc\": $rc, \"first_detail\": \"$line\"},"
